@@ -86,7 +86,10 @@ func Load(repoDir string, patterns []string) (*Program, error) {
 			return nil, err
 		}
 	}
-	for _, p := range pkgs {
+	var modPkgs []*packages.Package
+	packages.Visit(pkgs, nil, func(p *packages.Package) { modPkgs = append(modPkgs, p) })
+	sort.Slice(modPkgs, func(i, j int) bool { return modPkgs[i].PkgPath < modPkgs[j].PkgPath })
+	for _, p := range modPkgs {
 		if !strings.HasPrefix(p.PkgPath, ModulePath) {
 			continue
 		}
